@@ -96,6 +96,18 @@ fn main() {
         "res-child" => {
             res::child(&argv[2], argv[3].parse().unwrap_or(0));
         }
+        "interop-debug" => {
+            // vharness interop-debug <ccs> <cwin> <scs> <swin> <mode> <seed> : one dialogue, log on stdout
+            let g = |i: usize| -> u64 { a.rest.get(i).map(|s| s.parse().unwrap()).unwrap_or(0) };
+            let mut ccfg = rml_rtmp::sessions::ClientSessionConfig::new();
+            let mut scfg = rml_rtmp::sessions::ServerSessionConfig::new();
+            ccfg.chunk_size = g(0) as u32; ccfg.window_ack_size = g(1) as u32;
+            scfg.chunk_size = g(2) as u32; scfg.window_ack_size = g(3) as u32;
+            let mut rng = util::Rng::new(g(5));
+            let (sent, log, good) = interop::exchange(&mut rng, "quick", ccfg, scfg, g(4));
+            for e in &log { let s = e.to_string(); println!("{}", &s[..s.len().min(300)]); }
+            println!("sent={} good={}", sent, good);
+        }
         "interop" => {
             let shard: u64 = a.rest.get(1).map(|s| s.parse().unwrap()).unwrap_or(0);
             let nshards: u64 = a.rest.get(2).map(|s| s.parse().unwrap()).unwrap_or(1);
